@@ -53,7 +53,7 @@ func (c05) Meta() fw.Meta {
 
 func (c05) Cases(tier string) int {
 	if tier == "thorough" {
-		return 4000
+		return 30000
 	}
 	return 640
 }
